@@ -164,7 +164,7 @@ Fixpoint tk_stmt (s : stmt) (t : nat) {struct s} : stmt * nat :=
   | SFetch _ target ct bank _ => (SFetch "cms_miniaod" target ct bank (mini_lines ct (tok_name t)), S t)
   | SFor x e b => let '(b', t') := tk_block b t in (SFor x e b', t')
   | SIf c b None => let '(b', t') := tk_block b t in (SIf c b' None, t')
-  | SIf c b (Some b2) => let '(b', t1) := tk_block b t in (SIf c b' (Some b2), t1)   (* no else-arm holds a retrieval in these programs *)
+  | SIf c b (Some b2) => let '(b', t1) := tk_block b t in let '(b2', t2) := tk_block b2 t1 in (SIf c b' (Some b2'), t2)
   | SBlk b => let '(b', t') := tk_block b t in (SBlk b', t')
   | _ => (s, t)
   end
@@ -182,7 +182,7 @@ Fixpoint fetches_stmt (s : stmt) : list (string * string) :=
   | SFetch _ _ ct bank _ => [(ct, bank)]
   | SFor _ _ b => fetches_block b
   | SIf _ b None => fetches_block b
-  | SIf _ b (Some _) => fetches_block b
+  | SIf _ b (Some b2) => fetches_block b ++ fetches_block b2
   | SBlk b => fetches_block b
   | _ => []
   end
